@@ -53,3 +53,27 @@ Proof.
   rewrite H0, H1, H2, H3, H4, H5, H6, H7, H8, Hd in E. apply R1_neq_R0.
   rewrite <- (Rmult_0_l (x0 * (x4 * x8 - x5 * x7) - x1 * (x3 * x8 - x5 * x6) + x2 * (x3 * x7 - x4 * x6))). rewrite E. ring.
 Qed.
+
+(* ---- any size: matrices and right-hand sides as functions of the indices (only indices < n, < M matter) *)
+Fixpoint Rsum (n : nat) (f : nat -> R) : R :=
+  match n with O => 0 | S k => Rsum k f + f k end.
+(* A X = B, A : n x n, X, B : n x M *)
+Definition solves_fun (n M : nat) (A B X : nat -> nat -> R) : Prop :=
+  forall r k, (r < n)%nat -> (k < M)%nat -> Rsum n (fun c => A r c * X c k) = B r k.
+Definition solves_vec (n : nat) (A : nat -> nat -> R) (b x : nat -> R) : Prop :=
+  forall r, (r < n)%nat -> Rsum n (fun c => A r c * x c) = b r.
+Definition identity_fun (i j : nat) : R := if Nat.eqb i j then 1 else 0.
+(* A has a non-trivial kernel *)
+Definition singular_fun (n : nat) (A : nat -> nat -> R) : Prop :=
+  exists y, (exists c, (c < n)%nat /\ y c <> 0) /\ forall r, (r < n)%nat -> Rsum n (fun c => A r c * y c) = 0.
+
+(* ---- back substitution alone: m holds a factorisation L U (Crout: L with its diagonal in the lower part, U with a unit
+   diagonal, not stored, in the upper part) with rows addressed through the permutation sg (row r of L and U is row
+   sg(r) of m).  (L U)(r, c) and the statement "X solves (L U) X = P B", X and B : N x M row-major *)
+Definition lu_entry (N : nat) (sg : list nat) (m : list R) (r c : nat) : R :=
+  fold_right (fun j acc => (if Nat.leb j r then sel m (nth r sg 0%nat * N + j) else 0) *
+                           (if Nat.ltb j c then sel m (nth j sg 0%nat * N + c) else if Nat.eqb j c then 1 else 0) + acc)
+             0 (seq 0 N).
+Definition bs_solves (N M : nat) (sg : list nat) (m b x : list R) : Prop :=
+  flat_map (fun r => map (fun k => fold_right (fun c acc => lu_entry N sg m r c * sel x (c * M + k) + acc) 0 (seq 0 N)) (seq 0 M)) (seq 0 N)
+  = flat_map (fun r => map (fun k => sel b (nth r sg 0%nat * M + k)) (seq 0 M)) (seq 0 N).
